@@ -48,8 +48,10 @@ func c01ForwardLabel(w *World, r *Report) {
 					fromSrc = true
 				}
 			}
-			if strings.HasSuffix(w.accessPath(x), ".sourcePChannel") {
-				fromSrc = true
+			if strings.HasSuffix(w.accessPath(x), ".sourcePChannel") && fromTgt == "" {
+				// the handler's own channel is not the channel the messages were read from when handlers are keyed
+				// by target channel (fewer source than target channels)
+				fromTgt = "the handler's sourcePChannel"
 			}
 			switch y := x.(type) {
 			case *ssa.FieldAddr:
@@ -75,6 +77,10 @@ func c01ForwardLabel(w *World, r *Report) {
 func runC01(w *World, r *Report) {
 	r.Rule("C01-R1", "synchronous single-consumer path", "stream receive -> innerHandleReplicateMsg -> handlePack -> SendTargetMsg are plain calls (no go / pool submit inside them); forwardPackChan and generatePackChan are received only inside startReadChannel's goroutine (and GreedyConsumeChan called from it); each GetStreamChan result has one receive site", 6)
 	defer c01ForwardLabel(w, r)
+	// the -1 "partition dropped" sentinel that lets handlePack skip a message never comes with an error; a collection is
+	// registered for replication atomically, so a second announcement cannot start a second stream (shared with C06/C13)
+	defer r.importRules(runC06, "C01-", map[string]bool{"C06-R4": true})
+	defer r.importRules(runC13, "C01-", map[string]bool{"C13-R3": true})
 	// tick-only packs carry the stream's checkpoint position: the positions of an output pack are the pack's own copies
 	defer r.importRules(runC02, "C01-", map[string]bool{"C02-R2": true})
 	r.Rule("C01-R2", "attribution", "innerHandleReplicateMsg copies CollectionID, CollectionName, PChannelName, TaskID from its input message to the pack it enqueues; the stream loop builds its input with its own sourceInfo.PChannel, targetInfo.CollectionName, collectionID and taskID", 8)
